@@ -242,14 +242,40 @@ Definition inputs_okb (c : config) (nodes : list node) : bool :=
   negb (existsb is_shared (cfg_inputs c))
   && (length (filter (fun nd => is_input (n_op nd)) nodes) =? length (cfg_inputs c))%nat.
 
+(* the reading is meaningful only on the elementwise fragment of RingEval.v, and the idealisation
+   of the PRF as one independent cell per PRF node needs pairwise distinct counters (C04) *)
+Definition frag_op (o : op) : bool :=
+  match o with
+  | OInput _ | OZeros _ | OOnes _ | OConstant _ _ | ORandom _ | OPRF _ _ | OAdd | OSubtract | OMultiply
+  | ONOP | OCreateTuple | OTupleGet _ => true
+  | _ => false
+  end.
+Definition prf_ivs (nodes : list node) : list Z :=
+  flat_map (fun nd => match n_op nd with OPRF iv _ => [iv] | _ => [] end) nodes.
+Fixpoint znodup (l : list Z) : bool :=
+  match l with [] => true | x :: r => negb (zmem x r) && znodup r end.
+Definition graph_okb (nodes : list node) : bool :=
+  forallb (fun nd => frag_op (n_op nd)) nodes && znodup (prf_ivs nodes).
+Definition wf_okb (c : config) (nodes : list node) : bool := inputs_okb c nodes && graph_okb nodes.
+
 Definition maskcheck (c : config) (p : party) (nodes : list node) (out : Z) : option (list mask) :=
   let I := infos c p nodes in
   let outp := zmem p (cfg_outputs c) in
   let chain := outchain nodes (length nodes) out in
   let dl := deliveries p nodes in
   let M := fst (fold_left (find_step I nodes outp chain) dl ([], [])) in
-  if inputs_okb c nodes && masks_okb I M && forallb (deliv_okb I nodes outp chain M) dl
+  if wf_okb c nodes && masks_okb I M && forallb (deliv_okb I nodes outp chain M) dl
   then Some M else None.
+
+(* tie with C02: every node the knowledge analysis of Model/Knows.v (proved sound there) says the
+   observer validly holds is counted in the observer's view here *)
+Definition viewcover (c : config) (p : party) (nodes : list node) : bool :=
+  let I := infos c p nodes in
+  match know_all c nodes with
+  | Ok ks => forallb (fun ik => negb (pmem p (kmeet (snd ik))) || ni_vd (zget I (fst ik) ni_default))
+                     (combine (zrange (Z.of_nat (length ks))) ks)
+  | _ => false
+  end.
 
 (* diagnostic: the deliveries that are not accepted *)
 Definition mc_rejected (c : config) (p : party) (nodes : list node) (out : Z) : list Z :=
